@@ -15,7 +15,7 @@ BIT_LEMMAS = ["lemmas:word_bits_len", "lemmas:wire_chars_len", "lemmas:max_is_en
 DECODERS_PROVED = DECODERS + ["fcp.serde:_Buffer.push_bytes", "fcp.serde:decode"]
 RT_LEMMAS = ["lemmas:mod_step", "lemmas:mod_range", "lemmas:val_of_word_bits", "lemmas:chars_split", "lemmas:elems_split",
              "lemmas:fields_split", "lemmas:rt_str", "lemmas:rt_elems", "lemmas:rt_struct", "lemmas:seq_assoc", "lemmas:wire_dyn_shape",
-             "lemmas:rt_dyn_count", "lemmas:rt_dyn", "lemmas:rt", "lemmas:unpack_len", "lemmas:unpack_allbits", "lemmas:unpack_byte",
+             "lemmas:rt_dyn_count", "lemmas:rt_dyn", "lemmas:rt", "lemmas:unpack_len", "lemmas:unpack_allbits", "lemmas:byte_expand", "lemmas:unpack_byte",
              "lemmas:unpack_facts", "lemmas:unpack_rep", "lemmas:rep_bytes_ok", "lemmas:bit_eq", "lemmas:rep_unpack"]
 REFLECTION = ["fcp.specs.type:NumericType.reflection", "fcp.specs.type:StringType.reflection", "fcp.specs.type:EnumType.reflection",
               "fcp.specs.type:StructType.reflection", "fcp.specs.type:ArrayType.reflection", "fcp.specs.type:DynamicArrayType.reflection",
@@ -37,6 +37,8 @@ CODEC_TRUSTED = [
 GEN_CHECKS = ["fcp.verifier:make_general_verifier." + n for n in (
     "check_duplicate_typenames", "check_duplicate_impl", "check_duplicate_struct_fields", "check_struct_contains_struct_fields",
     "check_enum_duplicate_enumerations_names", "check_enum_duplicate_enumerations_values", "check_device_contains_services")]
+TRUNC_LEMMAS = ["lemmas:val_prefix", "lemmas:loc_str", "lemmas:loc_elems", "lemmas:loc_struct", "lemmas:loc", "lemmas:val_prefix_if",
+                "lemmas:loc_if", "lemmas:unpack_same", "lemmas:unpack_mono"]
 PLUGIN_CHECKS = ["fcp_dbc.generator:Generator.register_checks.check_impl_valid_type",
                  "fcp_dbc.generator:Generator.register_checks.check_duplicate_can_ids",
                  "fcp_can_c.generator:Generator.register_checks.check_impl_valid_type"]
@@ -49,7 +51,7 @@ ENCODING = ["fcp.encoding:PackedEncoder._get_type_length", "fcp.encoding:PackedE
             "fcp.specs.type:NumericType.get_length", "fcp.specs.enum:Enum.max", "lemmas:max_is_enum_max"]
 
 # per-function solver budgets (ms) above the tier default: sized so that the verdict does not flip on a loaded machine
-SLOW = {"fcp.serde:_decode": 120000, "lemmas:unpack_byte": 60000, "lemmas:bit_eq": 30000, "lemmas:rt_dyn": 30000, "lemmas:rt": 60000, "theorems:C01_roundtrip": 60000, "theorems:C09_general": 60000, "theorems:C09_dbc": 60000, "lemmas:flat_all_2": 30000, "lemmas:flat_all_1": 30000, "lemmas:rt_str": 30000, "fcp.serde:_decode_struct": 60000, "fcp.serde:_decode_str": 30000, "fcp.serde:decode": 30000, "fcp.serde:_encode": 30000,
+SLOW = {"fcp.serde:_decode": 120000, "lemmas:unpack_byte": 60000, "lemmas:bit_eq": 30000, "lemmas:rt_dyn": 30000, "lemmas:rt": 60000, "theorems:C01_roundtrip": 60000, "theorems:C09_general": 60000, "theorems:C09_dbc": 60000, "lemmas:flat_all_2": 30000, "lemmas:flat_all_1": 30000, "lemmas:loc": 60000, "lemmas:loc_struct": 30000, "lemmas:loc_elems": 30000, "lemmas:loc_str": 30000, "lemmas:rt_str": 30000, "fcp.serde:_decode_struct": 60000, "fcp.serde:_decode_str": 30000, "fcp.serde:decode": 30000, "fcp.serde:_encode": 30000,
         "fcp.serde:_decode_dynamic_array": 30000, "fcp.serde:_encode_struct": 30000}
 
 PLANS = {
@@ -90,11 +92,16 @@ PLANS = {
                     "fcp.encoding:PackedEncoder._generate_struct", "fcp.encoding:PackedEncoder._generate_array_type",
                     "fcp.encoding:PackedEncoder._generate_compound_type", "fcp.encoding:PackedEncoder._generate",
                     "fcp.encoding:PackedEncoder.generate", "fcp.specs.v2:FcpV2.get_matching_impls", "fcp_dbc.dbc_writer:write_dbc",
+                    "fcp.specs.type:Type.get_length", "fcp.specs.type:ArrayType.get_length", "fcp.specs.type:DynamicArrayType.get_length",
+                    "fcp.specs.type:OptionalType.get_length", "fcp.specs.type:NumericType.get_length", "lemmas:sum_pointwise",
+                    "fcp_can_c.generator:Generator.register_checks.check_impl_size",
                     "fcp.codegen:GeneratorManager.generate", "fcp.codegen:CodeGenerator.gen"],
         "native": "dbc",
         "trusted": [
-            "fcp_dbc Generator.generate (one file record per (bus, text) pair returned by write_dbc, after unwrap()) and the C plug-in's "
-            "check_impl_size are not under contract (known finding KF-F16 for the latter)",
+            "fcp_dbc Generator.generate (one file record per (bus, text) pair returned by write_dbc, after unwrap()) is not under contract",
+            "the C plug-in's check_impl_size is under contract for structs whose fields are numeric or arrays of numerics (precondition); "
+            "outside it get_length() raises instead of returning an error (known finding KF-F16), and the rule measures the declared "
+            "widths of the struct's own fields, not the packed layout of a binding",
             "write_dbc's precondition: every CAN binding names a well-formed struct with at least one leaf (the general verifier's checks, C09)",
             "as C04, C05, C10",
         ],
@@ -104,7 +111,9 @@ PLANS = {
                        "not only allowed); _make_signals raises iff the message exceeds 64 bits; write_dbc is proved to return Ok only if every CAN "
                        "binding has a static packed size and an id (neither exception is swallowed: a path that continues after a ValueError fails "
                        "the loop invariant); the tiling invariant excludes overlaps and signals beyond the message; by C10's gating contract "
-                       "nothing is written when generation fails",
+                       "nothing is written when generation fails; the C plug-in's check_impl_size returns Err exactly when the declared "
+                       "widths of the struct's fields (sum() over a comprehension of dynamically dispatched get_length() calls: every callee "
+                       "precondition is an obligation per element, builtin sum = recursive sum + induction lemma) exceed 64 bits",
     },
     "C11": {
         "targets": ["fcp.parser:_get_fcp", "fcp.parser:get_fcp_from_string", "fcp.parser:FcpV2Transformer.mod_expr", "fcp.error:Logger.add_source"],
@@ -223,24 +232,24 @@ PLANS = {
                        "function's own postcondition.",
     },
     "C16": {
-        "targets": ["fcp.serde:_Buffer.get_bit", "fcp.serde:_Buffer.read_word"] + DECODERS_PROVED
-                   + ["fcp.specs.type:NumericType.get_length", "fcp.specs.v2:FcpV2.get_enum", "fcp.specs.enum:Enum.get_packed_size"],
+        "targets": BUFFER + LOOKUPS + ENCODERS + BIT_LEMMAS + DECODERS_PROVED + RT_LEMMAS + TRUNC_LEMMAS + ["theorems:C16_prefix"],
         "native": "codec",
-        "trusted": [
-            "the sentence `every strict prefix of a valid encoding raises` is NOT proved as one theorem about two runs; what is proved, for "
-            "EVERY input, are the per-call facts it rests on (below).  Informally: a strict byte prefix of encode(v) has fewer than "
-            "len(wire(v)) bits, a normal return of decode consumed exactly the bits a value announces, all of them inside the input",
+        "trusted": CODEC_TRUSTED + [
+            "termination of the structural induction in the locality lemmas (as for the RT lemmas)",
             "known finding KF-F23: the element count of a dynamic array is bounded by the input length only when the element type occupies "
             "at least one bit (the obligation is restricted to min_wire(element) >= 1)",
+            "known finding KF-F1 does not touch this property's clauses (it concerns the value returned for the signed minimum)",
         ],
-        "explanation": "get_bit raises iff the bit lies outside the buffer; read_word raises iff any of its bits does; every scalar decoder raises "
-                       "iff its field extends past the input; the count prefix of strings / dynamic arrays, every announced character and the "
-                       "presence flag of optionals must lie inside the input (must_raise_if clauses).  For every decoder and every input: on a "
-                       "normal return the cursor has advanced by at least min_wire(type) (the shortest possible image) and lies inside the "
-                       "input (cursor <= 8*len(buffer)) - no value is ever built from bits that are not there; decode() returns only if the "
-                       "input is at least as long as the minimal image of the struct; the number of elements a dynamic array decoder "
-                       "returns is at most the number of input bits (work bounded by the input), the string loop consumes 8 bits per "
-                       "completed iteration",
+        "explanation": "theorem C16_prefix (ghost client of the real encode() and decode()): for every well-formed schema, every conforming value v "
+                       "and EVERY byte string d2 that is a strict prefix of encode(fcp, name, v), decode(fcp, name, d2) does not return.  It "
+                       "rests on a must-raise clause carried by every decoder (ghost fb = the bits of the full input): a buffer that is a "
+                       "prefix of an input holding the image of a conforming v at the cursor, and that ends before that image does, makes "
+                       "the decoder raise - proved per decoder, with the recursive calls cut at the same clause, the locality lemma "
+                       "(`starts` on the full input implies `starts` on any prefix that contains the image; structural induction) invoked "
+                       "after each element/field has been read.  Independently, for every input at all: scalar decoders raise iff their "
+                       "field extends past the input; a normal return has consumed at least min_wire(type) bits, all inside the input "
+                       "(no value is built from bits that are not there); decode() returns only if the input is at least as long as the "
+                       "minimal image; a dynamic array decoder returns at most as many elements as there are input bits.",
     },
     "C01": {
         "targets": BUFFER + LOOKUPS + ENCODERS + BIT_LEMMAS + DECODERS_PROVED + RT_LEMMAS + ["theorems:C01_roundtrip"],
